@@ -1,11 +1,11 @@
 (* Xml/LoadRecords.v — what the loader records in `identifiables` and `references` (parser.rs: ArxmlParser::identifiables,
    ::references; model: p_idents / p_refs, newest first), as functions of the RETURNED TREE, for every table set, name
    table, validator, both modes and every byte string; no hypothesis.
-     pidents T path pos t : the entries in the order the parser makes them.  An entry is made at EVERY SHORT-NAME
-       sub-element (at any child position) whose first content item is a text: (path ++ "/" ++ text, position of the
-       PARENT); from then on the following siblings are parsed under the extended path; the children BEFORE that
-       SHORT-NAME were parsed under the parent's path; a SHORT-NAME without text (<SHORT-NAME/>) makes no entry and
-       leaves the path as it is.
+     pidents T path pos t : the entries in the order the parser makes them.  An entry is made at a SHORT-NAME
+       sub-element that is the FIRST content item (fix of the late SHORT-NAME defect: before, at any child position) and
+       whose first content item is a text: (path ++ "/" ++ text, position of the PARENT); the following siblings are parsed
+       under the extended path; a SHORT-NAME without text (<SHORT-NAME/>) makes no entry and leaves the path as it is; a
+       SHORT-NAME at a later position is an ordinary sub-element.
      prefs T pos t : one entry (text, position) per text item of an element whose type is the reference type.
    Theorem load_records: load s .. bs = Ret t st -> p_idents st = rev (pidents T [] [] t) /\ p_refs st = rev (prefs T [] t).
    Also `linked t`: every sub-element was found by find_sub_element in its parent's type under its own name with the type it
@@ -68,7 +68,7 @@ Definition pid_go (pid : list N -> list nat -> etree -> list entry) (pos : list 
     | [] => []
     | inl c :: r =>
       pid path (k :: pos) c ++
-      (if e_name c =? name_short_name T then
+      (if (e_name c =? name_short_name T) && Nat.eqb k O then
          match first_string c with
          | Some nm => (path ++ [47] ++ nm, rev pos) :: go (S k) (path ++ [47] ++ nm) r
          | None => go (S k) path r
@@ -261,7 +261,9 @@ Proof.
       - rewrite RF, RX, B2. cbn [pref_go]. rewrite rev_app_acc. reflexivity.
       - intros c [E|I]; [injection E as <-; split; [exists fv, idx'; rewrite N8, T8; exact FOUND|exact L8]|exact (LC c I)]. }
     rewrite <- N8 in H.
-    destruct (e_name sub =? name_short_name T) eqn:SN.
+    assert (EMP : match content with [] => true | _ :: _ => false end = Nat.eqb (List.length content) O) by (destruct content; reflexivity).
+    rewrite EMP in H.
+    destruct ((e_name sub =? name_short_name T) && Nat.eqb (List.length content) O) eqn:SN.
     + destruct (first_string sub) as [nm|] eqn:FS.
       * inv H as u9 s9 E9. injection E9 as _ <-.
         refine (FIN (path ++ [47] ++ nm) [(path ++ [47] ++ nm, rev pos)] _ true _ _ _ H); [reflexivity|reflexivity|].
